@@ -196,7 +196,7 @@ Section Order.
         exfalso. cbn [done_of] in Hcn. apply complete_listed in Hcn. unfold shape_of in Hsh.
         destruct (rewrites_of G (jid d)) as [|[? ?] [|]]; destruct (completers_of G (jid d)) as [|? [|]]; try discriminate; try destruct Hcn;
           destruct (is_unknown (init_acc G (jid d))); discriminate. }
-    destruct (launched_history G Hwf st y Hr He Hl) as (st0 & pj & st1 & A1 & A2 & A3 & A4 & A5 & A6 & A7 & A8 & A9 & A10 & A11 & A12).
+    destruct (launched_history G Hwf st y Hr He Hl) as (st0 & pj & st1 & A1 & A2 & A3 & A4 & A5 & A6 & A7 & A8 & A9 & A10 & A11 & A12 & _).
     pose proof (launch_access st0 y pj A1 A2 A3 A5) as H. rewrite Hsh in H. destruct H as [_ Hg].
     apply (gr_succ _ _ A11). rewrite A9. exact Hg.
   Qed.
@@ -272,7 +272,7 @@ Section Order.
   Proof.
     intros Ha Hown Hin Hex st Hr He Hs.
     pose proof (started_launched st y Hr He Hs Hown (ex_intro _ _ Ha)) as Hl.
-    destruct (launched_history G Hwf st y Hr He Hl) as (st0 & pj & st1 & A1 & A2 & A3 & A4 & A5 & A6 & A7 & A8 & A9 & A10 & A11 & A12).
+    destruct (launched_history G Hwf st y Hr He Hl) as (st0 & pj & st1 & A1 & A2 & A3 & A4 & A5 & A6 & A7 & A8 & A9 & A10 & A11 & A12 & _).
     pose proof (launch_access st0 y pj A1 A2 A3 A5) as Hacc.
     assert (Hpa : pacc pj = ASet l).
     { unfold launch_acc in Ha. destruct (shape_of G y); try discriminate; injection Ha as ->; [exact Hacc|apply Hacc]. }
@@ -297,7 +297,7 @@ Section Order.
   Proof.
     intros Ha Hown Hin Hex st Hr He Hs.
     pose proof (started_launched st y Hr He Hs Hown (ex_intro _ _ Ha)) as Hl.
-    destruct (launched_history G Hwf st y Hr He Hl) as (st0 & pj & st1 & A1 & A2 & A3 & A4 & A5 & A6 & A7 & A8 & A9 & A10 & A11 & A12).
+    destruct (launched_history G Hwf st y Hr He Hl) as (st0 & pj & st1 & A1 & A2 & A3 & A4 & A5 & A6 & A7 & A8 & A9 & A10 & A11 & A12 & _).
     pose proof (launch_access st0 y pj A1 A2 A3 A5) as Hacc.
     assert (Hpa : pacc pj = ASet l).
     { unfold launch_acc in Ha. destruct (shape_of G y); try discriminate; injection Ha as ->; [exact Hacc|apply Hacc]. }
